@@ -75,6 +75,12 @@ def xmlDocCmd (args : List String) : String :=
         | some t => (match attrOf "message-id".toList t with | some m => strTok m | none => "-")
         | none => "none")
     | _, _, _ => "bad-args"
+  | ["root", s] =>
+    match tokStr s with
+    | some s => match parseRoot s with
+      | some (n, attrs) => strTok n ++ " " ++ listTok (attrs.map fun (k, v) => strTok k ++ "=" ++ strTok v)
+      | none => "none"
+    | none => "bad-args"
   | ["parse", s] =>
     match tokStr s with
     | some s => match parseDoc s with | some t => String.intercalate " " (xdToks t) | none => "none"
